@@ -419,67 +419,63 @@ func isDangerousProcPath(path string) bool {
 }
 
 func resolveTraceePath(pid int, base string, p string) string {
-	p = normalizeProcMagicPath(pid, p)
 	if !filepath.IsAbs(p) {
 		if base == "" {
 			base = getProcCwd(pid)
 		}
-		p = filepath.Join(base, p)
+		p = base + "/" + p
 	}
-	p = filepath.Clean(p)
+	traceeProc := "/proc/" + strconv.Itoa(pid)
 
-	for range maxSymlinkDepth {
-		next, changed := resolveTraceePathOnce(pid, p)
-		if !changed {
-			return next
-		}
-		p = next
-	}
-	return p
-}
-
-func resolveTraceePathOnce(pid int, p string) (string, bool) {
-	if p == "/" {
-		return p, false
-	}
-
+	// walk the components the way the kernel does: ".." applies to the
+	// directory reached so far, after the symlinks before it were expanded
 	cur := "/"
-	rest := strings.Split(strings.TrimPrefix(p, "/"), "/")
-	for i, part := range rest {
+	todo := strings.Split(p, "/")
+	links := 0
+	for len(todo) > 0 {
+		part := todo[0]
+		todo = todo[1:]
 		if part == "" || part == "." {
 			continue
 		}
 		if part == ".." {
 			cur = filepath.Dir(cur)
-			if cur == "." {
-				cur = "/"
-			}
 			continue
 		}
-
 		candidate := filepath.Join(cur, part)
-		lstatPath := filepath.Join(fmt.Sprintf("/proc/%d/root", pid), candidate)
-		fi, err := os.Lstat(lstatPath)
-		if err != nil || fi.Mode()&os.ModeSymlink == 0 {
+		// the magic links name the tracee, not the tracer reading them
+		if candidate == "/proc/self" {
+			cur = traceeProc
+			continue
+		}
+		if candidate == "/proc/thread-self" {
+			cur = filepath.Join(traceeProc, "task", strconv.Itoa(pid))
+			continue
+		}
+		target, ok := readTraceeLink(pid, candidate)
+		if !ok || links >= maxSymlinkDepth {
 			cur = candidate
 			continue
 		}
-
-		target, err := os.Readlink(lstatPath)
-		if err != nil {
-			cur = candidate
-			continue
+		links++
+		if filepath.IsAbs(target) {
+			cur = "/"
 		}
-		target = normalizeProcMagicPath(pid, target)
-		if !filepath.IsAbs(target) {
-			target = filepath.Join(filepath.Dir(candidate), target)
-		}
-		target = filepath.Clean(target)
-
-		if i+1 < len(rest) {
-			target = filepath.Join(target, filepath.Join(rest[i+1:]...))
-		}
-		return filepath.Clean(target), true
+		todo = append(strings.Split(target, "/"), todo...)
 	}
-	return filepath.Clean(cur), false
+	return cur
+}
+
+// readTraceeLink reads the symlink at the path as seen from the tracee's root
+func readTraceeLink(pid int, path string) (string, bool) {
+	lstatPath := filepath.Join(fmt.Sprintf("/proc/%d/root", pid), path)
+	fi, err := os.Lstat(lstatPath)
+	if err != nil || fi.Mode()&os.ModeSymlink == 0 {
+		return "", false
+	}
+	target, err := os.Readlink(lstatPath)
+	if err != nil {
+		return "", false
+	}
+	return target, true
 }
